@@ -25,6 +25,14 @@ SHAPE = {"id": 1, "fam": "demo", "invokes": [
     {"name": "", "calls": [{"k": "setval_c", "args": ["fv( 1 )", "st%x1"]}]}]}
 
 
+_KINDS = {"tk5": ["real", "field", "field", "field", "field"],
+          "setval_x": ["field", "field"], "setval_c": ["field", "real"],
+          "inc_a_times_x": ["real", "field"]}
+for _inv in SHAPE["invokes"]:
+    for _c in _inv["calls"]:
+        _c["kinds"] = _KINDS[_c["k"]]
+
+
 def corruptions(case):
     '''(description, corrupted case, clauses one of which must be reported)'''
     res = []
@@ -53,6 +61,9 @@ def corruptions(case):
     c = copy.deepcopy(case)
     c["acts"][3] = gen.enc("st%fv(1)")      # st%f1 -> st%fv(1)
     res.append(("component replaced by an array element", c, {"DataFlow"}))
+    c = copy.deepcopy(case)
+    c["dtypes"][0], c["dtypes"][1] = c["dtypes"][1], c["dtypes"][0]
+    res.append(("declared types of two dummies swapped", c, {"TypeAgree"}))
     return res
 
 
